@@ -87,8 +87,11 @@ CLAIMS = {
     "C12": ("proof",
             "Lean 4 on the model of SvgBuilder: unescape(escape s) = s and the escaped href contains no quote or '<' for EVERY "
             "image string (C12_unescape_escape, C12_escape_safe, by induction), rgba2hex = #rrggbb / #rrggbbaa, layers = the "
-            "shape()/shape_color() calls in order for every setter history (C12_layers, induction over the history). The "
-            "document-level statement is evaluated, not proved (partial): on every run Spec.SvgParse (an XML-subset recogniser "
+            "shape()/shape_color() calls in order for every setter history (C12_layers, induction over the history); C12_subpaths: "
+            "for EVERY matrix, margin and built-in shape the d attribute path() writes for a layer is read by the specification's "
+            "path reader as exactly one sub-path per dark module anchored at (column+margin, row+margin), row-major, none else "
+            "(decimal numbers via core's Nat.toDigits lemmas, the M splitter, the six shape bodies). The XML-tokenizer part of "
+            "the document-level statement is evaluated, not proved (partial): on every run Spec.SvgParse (an XML-subset recogniser "
             "in Lean) reads the REAL rendering: well-formed, viewBox/background, per layer exactly one sub-path per dark module "
             "in place, colours, one image element whose un-escaped href is the string. Defect found and fixed (href was not escaped).",
             "Trusted: Lean kernel; hand model tied by byte-exact string correspondence; Spec.SvgParse as the reading of 'well-formed' and 'anchored at'.",
